@@ -27,6 +27,7 @@ DOC = {
  "C19.R6": "job metadata: every split_off(k) / try_into().unwrap() on peer bytes is dominated by a length comparison that guarantees k bytes",
  "C19.R7": "tables agree: frame header written with u64::to_be_bytes and read with read_u64; every numeric BytesConvertable impl pairs to_be_bytes with from_be_bytes",
  "C19.R9": "round trip, structural part: no narrowing integer `as` cast in any BytesConvertable::into_bytes; an Option encoded as map(f).unwrap_or(K) has f provably != K (recognised: saturating_add(_, c>=1) with K = 0)",
+ "C19.R10": "= C20.R2: args, variant and metadata of an inbound Cast/Call frame reach the SerializedMessage unchanged in every branch (timed and untimed)",
  "C19.R8": "limit plumbing: every NodeSession the node server creates gets with_max_inbound_frame_size(self.max_inbound_frame_size); the session hands its limit to the transport and the reader passes it to the frame reader",
 }
 
@@ -493,6 +494,13 @@ def r9(run, db):
     run.anchor("sentinel-encoded options", nopt, 1)
 
 
+def r10(run, db):
+    """= C20.R2: `a valid frame is decoded identically` also means nothing of it is dropped on the way to the actor: what /
+    variant / metadata of a Cast or Call frame flow unchanged into the SerializedMessage in every branch"""
+    from . import c20
+    c20.r2(run, db)
+
+
 Q = ["rc"]
 TH = ["rc", "rcatr", "ws"]
 RULES = [
@@ -505,6 +513,7 @@ RULES = [
     {"id": "C19.R7", "fn": r7, "quick": Q, "thorough": TH},
     {"id": "C19.R8", "fn": r8, "quick": Q, "thorough": TH},
     {"id": "C19.R9", "fn": r9, "quick": Q, "thorough": TH},
+    {"id": "C19.R10", "fn": r10, "quick": Q, "thorough": ["rc", "rcatr"]},
 ]
 from .positive import control
 RULES.append({"id": "C19.P", "fn": control('alloc'), "quick": ["pos"], "thorough": ["pos"]})
